@@ -13,7 +13,26 @@ NA = [
  ("C17", "single-threaded histories on a value type compared with an ideal byte string: no I/O, time, fault or concurrency in the property"),
 ]
 SRVNOTE = "Trusts: the simulated transport/select/clock seams; the accept path is bypassed (AddNewSession); oracles use an independent matcher on a conservative pattern/filter subset (muscle's own per-path matcher where the property names it as the reference); sampling, not enumeration."
+THRNOTE = "Trusts: interleavings are explored at hook granularity under sequential consistency (Mutex, WaitCondition, AtomicCounter, signal byte, select, thread start/exit/join); std primitives and the kernel socket pair; each seed runs in a child forked from a pristine ASLR-free zygote. Sampling, not enumeration."
 CHECKS = {
+ "C10": dict(engine="thrsim", section="3 (C10)",
+   text="Seeded schedules of real threads over shared Refs to instrumented pooled and heap objects (tiny slabs so slabs are created, cached and deleted outside the lock during the run), with preemption at every AtomicCounter operation and Mutex lock/unlock; exactly-once release, never-early release, freshness and pool consistency are checked inside the objects and at the end. Exploration.",
+   note=THRNOTE, technique="deterministic simulation: controlled scheduler over real threads, instrumented-object oracle"),
+ "C11": dict(engine="thrsim", section="3 (C11)",
+   text="Seeded schedules of owner, extra senders and the internal thread of a real muscle Thread (both signalling mechanisms, default loop and own timed event loop, start with queued Messages, shutdown, restart); exactly-once/in-order logs, and a lost wake-up shows up as a detected deadlock. Exploration.",
+   note=THRNOTE, technique="deterministic simulation: controlled scheduler over real threads, sequence oracle + deadlock detector"),
+ "C12": dict(engine="netsim/dgram", section="3 (C12)",
+   text="Seeded simulation of 1-3 sending tunnel gateways and one receiver over a datagram network with per-packet loss, duplication, reordering (indexed systematically for <= 6 packets in flight, sampled beyond), would-blocks and sender restarts, MTU 17..9000, both tunnel types, zlib levels 0-9, with and without a slave gateway; every delivered Message must be byte-identical to a sent one of that source (a splice analysis names the two Messages otherwise), and fault-free runs must deliver exactly the sent sequences. Exploration.",
+   note="Trusts: the simulated datagram network; message-id wrap-around is not reachable (sender_restart stands in; the resulting splice is known finding F10); a zlib-compressing slave gateway (documented FIFO-only) is not used.", technique="deterministic simulation with fault injection: lossy/duplicating/reordering datagram network, membership and sequence oracles"),
+ "C18": dict(engine="thrsim", section="3 (C18)",
+   text="Seeded schedules (random walk, PCT, round-robin; low-preemption schedules over-sampled) of 2-4 real threads on one real ReaderWriterMutex with timeouts firing at any legal instant; shadow-table exclusion invariant at every hook, recursion/upgrade accounting, writer preference, deadline discipline of timed/try calls, deadlock and livelock detection. Exploration.",
+   note=THRNOTE, technique="deterministic simulation: controlled scheduler over real threads, shadow lock table invariant + deadlock detector"),
+ "C19": dict(engine="thrsim", section="3 (C19)",
+   text="Seeded schedules of submitters, pool threads, unregister/re-register and pool shutdown (also with handlers running and Messages outstanding) on a real ThreadPool; exactly-once, per-client order, per-client seriality, thread limit, unregister-waits and shutdown-returns oracles. Exploration.",
+   note=THRNOTE, technique="deterministic simulation: controlled scheduler over real threads, handler-log oracle + deadlock detector"),
+ "C20": dict(engine="netsim/pulse", section="3 (C20)",
+   text="Seeded histories on trees of instrumented PulseNodes under 1-3 manager roots driven through the ReflectServer protocol under a simulated clock (attach/detach/re-parent/destroy, requested times past/now/future/never/ties, invalidation from outside and from inside callbacks, early/exact/late wake-ups, clock jumps); root time == minimum, exactly the due nodes pulsed once with their own scheduled time, re-query discipline, with the one documented deferral relaxation for branches displaced by in-callback operations. Exploration.",
+   note="Trusts: the simulated clock (+1us per read); the harness manager mirrors ReflectServer's use of CallGetPulseTimeAux/CallPulseAux; the order of simultaneously due callbacks is not checked.", technique="deterministic discrete-event simulation: simulated clock driving real PulseNode trees, shadow-model oracle"),
  "C04": dict(engine="netsim/server", section="3 (C04)",
    text="Seeded multi-client histories against the real ReflectServer (stepped one event-loop iteration at a time under simulated select/clock/transport) with segmentation, slow-reader, stall, cut, reset and clock-jump faults; the subscriber-mark invariant is evaluated after every processed command and every client's mirror is compared with the real tree at every forced quiescent point (bounded-step liveness). Exploration over the seeds run.",
    note=SRVNOTE, technique="deterministic simulation with fault injection: real server + simulated clients, reference evaluation at linearisation points, mirror/mark oracles at quiescence"),
